@@ -204,6 +204,15 @@ class Report:
                 "the rule no longer sees the code it was written for"
             )
 
+    def guard(self, fn, *args, **kwargs):
+        """run one rule group; an AnalysisError inside it is deferred so that violations already found (usually the
+        cause) are reported as the verdict; without violations the run still ends with exit 2"""
+        try:
+            return fn(*args, **kwargs)
+        except AnalysisError as e:
+            self.min_failures.append(f"{getattr(fn, '__name__', 'rule')}: {e}")
+            return None
+
     def note_analysed(self, key, value):
         self.analysed[key] = value
 
